@@ -45,7 +45,7 @@ func snapshotFrame(fr *frame) *frame {
 		if n, ok := remap[a]; ok {
 			return n
 		}
-		n := &Array{E: append([]Int(nil), a.E...), RO: a.RO, ET: a.ET}
+		n := &Array{E: append([]Int(nil), a.E...), RO: a.RO, ET: a.ET, Recv: a.Recv, owner: a.owner}
 		remap[a] = n
 		return n
 	}
@@ -87,11 +87,13 @@ func valuesEqual(x, y Value) bool {
 	case VStatus:
 		return x.S == y.S
 	case VArray:
-		if len(x.A.E) != len(y.A.E) {
+		xl, xh := arrView(x)
+		yl, yh := arrView(y)
+		if xh-xl != yh-yl {
 			return false
 		}
-		for i := range x.A.E {
-			if !x.A.E[i].Eq(y.A.E[i]) {
+		for i := 0; i < xh-xl; i++ {
+			if !x.A.E[xl+i].Eq(y.A.E[yl+i]) {
 				return false
 			}
 		}
@@ -587,6 +589,8 @@ func StmtShape(s *Stmt) string {
 		return s.IOKw
 	case SIf:
 		return "if"
+	case SIterate:
+		return "iterate"
 	case SWhile:
 		return "while"
 	case SJump:
